@@ -120,6 +120,8 @@ pub fn profile_for(prop: &str, variant: u64) -> Profile {
             w[K::Refresh as usize] = 20;
             w[K::Meld as usize] = 2;
             w[K::Exchange as usize] = 3;
+            // incremental refreshes also follow a time travel (blocks left ready-but-unapplied)
+            w[K::ReloadUntil as usize] = 4;
             p.converge_end = 30;
         }
         "C03" => {
@@ -141,6 +143,7 @@ pub fn profile_for(prop: &str, variant: u64) -> Profile {
             w[K::Update as usize] = 40;
             w[K::EditCommit as usize] = 10;
             w[K::Read as usize] = 2;
+            w[K::Burst as usize] = 2;
             p.converge_end = 5;
         }
         "C05" | "C19" => {
@@ -267,6 +270,14 @@ pub fn profile_for(prop: &str, variant: u64) -> Profile {
             w[K::ReloadUntil as usize] = 3;
             w[K::Reload as usize] = 3;
             p.converge_end = 10;
+            if variant % 4 == 0 {
+                // a commit that fails at a storage write must keep the stage (all of the above then
+                // applies to the kept stage)
+                p.name = "staging-write-faults";
+                w[K::FailRedo as usize] = 8;
+                w[K::FailWrites as usize] = 8;
+                w[K::DiskFull as usize] = 1;
+            }
         }
         "C16" => {
             p.name = "array-chains";
@@ -342,6 +353,9 @@ pub fn make_cfg(prop: &str, run_seed: u64) -> (RunCfg, Gen) {
     }
     if prop == "C08" {
         doc.root_ids = rng.chance(1, 4);
+    }
+    if ["C15", "C10", "C03", "C01", "C09", "C08", "C02", "C12"].contains(&prop) && run_seed % 5 == 1 {
+        doc.chars = true;
     }
     if prop == "C03" || prop == "C11" {
         doc.nasty = true;
@@ -573,7 +587,7 @@ impl Gen {
             x if x == K::Meld as usize => vec![Op::Meld { r, from: other }],
             x if x == K::Refresh as usize => vec![Op::Refresh { r }],
             x if x == K::Reload as usize => vec![Op::Reload { r }],
-            x if x == K::ReloadUntil as usize => vec![Op::ReloadUntil { r, sel: self.rng.next() as u32 }],
+            x if x == K::ReloadUntil as usize => vec![Op::ReloadUntil { r, sel: self.rng.next() as u32, of: if self.rng.chance(1, 3) { other } else { r }, extra: if self.rng.chance(1, 4) { 1 + self.rng.below(1000) as u32 } else { 0 } }],
             x if x == K::Resolve as usize => vec![Op::Resolve { r, obj_sel: self.rng.next() as u32, leaf_sel: self.rng.next() as u32 }],
             x if x == K::Unstage as usize => vec![Op::Unstage { r }],
             x if x == K::RoundTrip as usize => vec![Op::StageRoundTrip { r }],
@@ -581,7 +595,7 @@ impl Gen {
             x if x == K::ObjOp as usize => {
                 let kind = self.rng.below(4) as u8;
                 let mut f = serde_json::Map::new();
-                if w.cfg.prop == "C19" && self.rng.chance(1, 4) {
+                if (w.cfg.prop == "C19" || w.cfg.prop == "C15") && self.rng.chance(1, 4) {
                     // a character-code object: its digest is the code itself (upper and lower case hex)
                     f.insert("#".to_string(), Value::from(*self.rng.pick(&["4A", "ff", "0041", "1F600", "e9", "AbCd12", "7"])));
                     return vec![Op::ObjOp { r, kind: 0, id_sel: self.rng.next() as u32, fields: Value::Object(f) }];
@@ -694,7 +708,7 @@ impl Gen {
                         if self.rng.chance(1, 2) {
                             v.push(Op::Restart { r });
                         }
-                        v.push(Op::ReloadUntil { r, sel: u32::MAX });
+                        v.push(Op::ReloadUntil { r, sel: u32::MAX, of: r, extra: 0 });
                         v.push(Op::Reload { r });
                     }
                     if n >= 3 {
@@ -742,7 +756,7 @@ impl Gen {
                     if self.w[K::ReloadUntil as usize] > 0 {
                         // travel through the graph just built (late and early head sets), then come back
                         for _ in 0..self.rng.range(1, 3) {
-                            v.push(Op::ReloadUntil { r, sel: self.rng.next() as u32 });
+                            v.push(Op::ReloadUntil { r, sel: self.rng.next() as u32, of: r, extra: 0 });
                         }
                         v.push(Op::Reload { r });
                     }
@@ -808,7 +822,7 @@ impl Gen {
                     v.push(Op::ObjOp { r, kind, id_sel, fields: fields.clone() });
                     v.push(Op::Commit { r, info: info.clone() });
                     // ... travel to its parents (the second newest head set), make the identical change again
-                    v.push(Op::ReloadUntil { r, sel: u32::MAX - 1 });
+                    v.push(Op::ReloadUntil { r, sel: u32::MAX - 1, of: r, extra: 0 });
                     v.push(Op::ObjOp { r, kind, id_sel, fields });
                     v.push(Op::Commit { r, info });
                     v.push(Op::ObjOp { r, kind: 0, id_sel: self.rng.next() as u32, fields: json!({"v": "after"}) });
@@ -829,7 +843,9 @@ impl Gen {
                     vec![Op::Reload { r }]
                 } else {
                     let mut doc = self.next_doc(w, r);
-                    let count = if self.rng.chance(1, 12) { self.rng.range(100, 115) } else { self.rng.range(10, 24) };
+                    let count = if self.rng.chance(1, 12) { self.rng.range(100, 140) } else { self.rng.range(10, 24) };
+                    // every version also submitted a second time (nothing may change, at any chain length)
+                    let twice = self.rng.chance(1, 3);
                     let mut v = vec![];
                     for i in 0..count {
                         // a small edit of the root and of one array, so that both an object chain and an
@@ -845,7 +861,7 @@ impl Gen {
                                 }
                             }
                         }
-                        v.push(Op::Update { r, doc: doc.clone(), twice: false });
+                        v.push(Op::Update { r, doc: doc.clone(), twice });
                         if self.w[K::RoundTrip as usize] > 0 && self.rng.chance(1, 5) {
                             // long uncommitted chains exported, discarded and replayed (indices across 9 -> 10 -> 11)
                             v.push(Op::StageRoundTrip { r });
